@@ -887,6 +887,7 @@ class ExtendedZoneProcessor: public ZoneProcessor {
       }
 
       mYear = year;
+      mIsFilled = false; // not valid until the cache has been rebuilt below
       mNumMatches = 0; // clear cache
       mTransitionStorage.init();
 
